@@ -169,7 +169,7 @@ def rule_closed_forms(repo: Repo, rep: Report) -> None:
             guard = next((a for a in ancestors(r) if isinstance(a, ast.If)), None)
             gtxt = unparse(guard.test) if guard is not None else ""
             want = {"self.field(0)": ["self.value == 0 or other.value == 0", "other.value == 0 or self.value == 0"], "other": ["self.value == 1"], "self": ["other.value == 1"]}[unparse(e)]
-            rep.check(gtxt in want, "CLOSED-FORM", fi, f"shortcut `return {unparse(e)}` under `{gtxt}`", "identity shortcut (0 annihilates, 1 is neutral)", f"shortcut result `{unparse(e)}` is not justified by its guard (accepted: {want})", node=r)
+            rep.shape(gtxt in want, False, "CLOSED-FORM", fi, f"shortcut `return {unparse(e)}` under `{gtxt}`", "identity shortcut (0 annihilates, 1 is neutral)", f"shortcut result `{unparse(e)}` is not justified by its guard (accepted: {want})", node=r)
             continue
         n_general += 1
         mm = match(e, "FiniteBifieldElement(self.field, ((BinaryPolynomial(self.value) * BinaryPolynomial(other.value)) % _M).value)") or match(e, "self.field(((BinaryPolynomial(self.value) * BinaryPolynomial(other.value)) % _M).value)")
@@ -200,7 +200,7 @@ def rule_closed_forms(repo: Repo, rep: Report) -> None:
         check_expr(rep, "CLOSED-FORM", fi, r.value, ["self ** (self.field.size - 2)", "self ** (2 ** self.field.m - 2)", "pow(self, self.field.size - 2)"], "inverse = a^(2^m-2) (Fermat)")
     rep.floor("inverse general returns", n, 1)
     raises_zero = any(isinstance(s, ast.If) and match(s.test, "self.value == 0") is not None and any(isinstance(x, ast.Raise) for x in s.body) for s in stmts_of(fi.body))
-    rep.check(raises_zero, "CLOSED-FORM", fi, "inverse of zero raises", "zero has no inverse: ValueError", "inverse() no longer rejects the zero element")
+    rep.shape(raises_zero, False, "CLOSED-FORM", fi, "inverse of zero raises", "zero has no inverse: ValueError", "inverse() no longer rejects the zero element")
 
     # --- trace / conjugates: m-1 squarings
     for qual, what in (("FiniteBifieldElement.trace", "trace = sum of a^(2^i), i<m"), ("FiniteBifieldElement.conjugates", "conjugates a^(2^i), i<m")):
@@ -417,7 +417,8 @@ def rule_closed_forms(repo: Repo, rep: Report) -> None:
     for r in acc_rets:
         guard = next((a for a in ancestors(r) if isinstance(a, ast.If)), None)
         good = guard is not None and unparse(guard.test) == "all_zero"
-        rep.check(good, "CLOSED-FORM", fi, f"acceptance: return p under `{unparse(guard.test) if guard else 'no guard'}`", "candidate returned only if it vanished on every conjugate", "candidate polynomial is returned without the vanishing test")
+        weakened = guard is not None and isinstance(guard.test, ast.BoolOp) and isinstance(guard.test.op, ast.Or) and any(unparse(v_) == "all_zero" for v_ in guard.test.values)
+        rep.shape(good, guard is None or weakened, "CLOSED-FORM", fi, f"acceptance: return p under `{unparse(guard.test) if guard else 'no guard'}`", "candidate returned only if it vanished on every conjugate", "candidate polynomial is returned without the vanishing test")
     rep.floor("minimal_polynomial acceptance returns", len(acc_rets), 1)
     clear = [x for x in stmts_of(fi.body) if isinstance(x, ast.If) and any(isinstance(y, ast.Assign) and unparse(y) == "all_zero = False" for y in x.body)]
     for x in clear:
